@@ -243,6 +243,15 @@ def run(ctx):
                 if code & 8:
                     ctx.broken.append("C12_limit instance fails on %r" % qt)
             ctx.log("correspondence: %d cases in %.1fs (%d with a defined Coq sem)" % (len(codes), time.time() - t0, sem_defined))
+    # the Precompute model (surface syntax -> prepared tree) against Parse + Precompute on the same cases
+    if coq_ok:
+        t0 = time.time()
+        idx = [i for i, c in enumerate(cases) if c[0] in ("helper", "random", "corpus", "known-witness")]
+        idx = sorted(rng.sample(idx, min(len(idx), 500 if quick else 4000)))
+        n, problems = kfl.check_precompute(ctx, [(cases[i][2], cases[i][3]) for i in idx], [res[i] for i in idx], now_ms * 1000000, name="kpre12")
+        ctx.cov["precompute_traces_validated"] = n
+        ctx.broken += problems[:5]
+        ctx.log("precompute correspondence: %d cases in %.1fs, %d problems" % (n, time.time() - t0, len(problems)))
     # the recorded finding map-order: the truth of this query on this record is not a function of the input
     probe = kfl.run_cases(ctx, "eval", [['a.* == a[*]', '{"a":{"b":"xy","k":[1,2]}}']] * 24)
     if len({(o.get("outcome"), o.get("truth")) for o in probe}) > 1:
